@@ -63,7 +63,7 @@ theorem C13_accounting_step (cfg : Cfg) (ops : PolicyOps P) (p0 : P) (o : Oracle
     · exact insertCore_inv cfg _ k _ _ true hi
   | remove k => exact removeKey_inv cfg ops _ k hi
   | invalidate k => exact removeKey_inv cfg ops _ k hi
-  | clear => exact clearAll_inv cfg ops o _ hi.1
+  | clear => exact clearAll_inv cfg ops o _ hi
   | advance d => exact Same.inv ⟨rfl, rfl, rfl⟩ hi
   | runMaintenance => exact absurd rfl hop
   | metrics => exact flush_inv cfg ops o _ hi
